@@ -328,6 +328,9 @@ def main():
         coverage["design_models"] = ms
         coverage["states"] += sum(m["states"] for m in ms)
         coverage["transitions"] += sum(m["transitions"] for m in ms)
+    pf = models.proofs_for(prop)
+    if pf:
+        coverage["tlaps_proofs"] = pf      # unbounded companions of TLC-checked theorems (spec/proofs), design level as well
     coverage["rule"] = ("cases = derived enums (declaration x configuration) generated from TLC-enumerated discriminant sets and TLC state-graph "
                         "operation paths; one trace per case, validated event by event by TLC against spec/TraceRt.tla; "
                         "distinct_nontrivial = number of distinct cases with at least one event bearing on this property")
